@@ -27,6 +27,26 @@ for dirpath, dirnames, filenames in os.walk(os.path.join(ROOT, PKG)):
         funcs = {}
         globs = set()
         attr_stored = {}
+        first_defs = {}
+
+        def first_defs_of(fn_node):
+            out = {}
+            for n in ast.walk(fn_node):
+                if isinstance(n, ast.Assign) and len(n.targets) == 1:
+                    t = n.targets[0]
+                    if isinstance(t, ast.Name):
+                        out.setdefault(t.id, (n.lineno, ast.unparse(n.value)))
+                        if out[t.id][0] > n.lineno:
+                            out[t.id] = (n.lineno, ast.unparse(n.value))
+                    elif isinstance(t, (ast.Tuple, ast.List)) and isinstance(n.value, (ast.Tuple, ast.List)) and len(t.elts) == len(n.value.elts):
+                        for a, b in zip(t.elts, n.value.elts):
+                            if isinstance(a, ast.Name) and (a.id not in out or out[a.id][0] > n.lineno):
+                                out[a.id] = (n.lineno, ast.unparse(b))
+                    elif isinstance(t, (ast.Tuple, ast.List)) and isinstance(n.value, ast.Call):
+                        for i, a in enumerate(t.elts):
+                            if isinstance(a, ast.Name) and (a.id not in out or out[a.id][0] > n.lineno):
+                                out[a.id] = (n.lineno, f"{ast.unparse(n.value)}[{i}]")
+            return {k: v[1] for k, v in out.items()}
 
         def attr_stored_of(fn_node):
             out = set()
@@ -60,6 +80,7 @@ for dirpath, dirnames, filenames in os.walk(os.path.join(ROOT, PKG)):
         for node in tree.body:
             if isinstance(node, (ast.FunctionDef, ast.AsyncFunctionDef)):
                 funcs[key_of(node)] = locals_of(node)
+                first_defs[key_of(node)] = first_defs_of(node)
                 if attr_stored_of(node):
                     attr_stored[key_of(node)] = attr_stored_of(node)
             elif isinstance(node, ast.ClassDef):
@@ -67,6 +88,7 @@ for dirpath, dirnames, filenames in os.walk(os.path.join(ROOT, PKG)):
                 for item in node.body:
                     if isinstance(item, (ast.FunctionDef, ast.AsyncFunctionDef)):
                         funcs[f"{node.name}.{key_of(item)}"] = locals_of(item)
+                        first_defs[f"{node.name}.{key_of(item)}"] = first_defs_of(item)
                         if attr_stored_of(item):
                             attr_stored[f"{node.name}.{key_of(item)}"] = attr_stored_of(item)
             elif isinstance(node, (ast.Assign, ast.AnnAssign)):
@@ -75,7 +97,7 @@ for dirpath, dirnames, filenames in os.walk(os.path.join(ROOT, PKG)):
                     for n in ast.walk(t):
                         if isinstance(n, ast.Name):
                             globs.add(n.id)
-        out[mod] = {"functions": funcs, "globals": sorted(globs), "attr_stored": attr_stored}
+        out[mod] = {"functions": funcs, "globals": sorted(globs), "attr_stored": attr_stored, "first_defs": first_defs}
 dst = os.path.join(os.path.dirname(os.path.dirname(os.path.abspath(__file__))), "sa", "vocab.json")
 with open(dst, "w") as fh:
     json.dump(out, fh, indent=0, sort_keys=True)
